@@ -3,8 +3,16 @@ import ledgercheck
 import ledgerlib as L
 
 
+KNOWN = [{
+    "id": "C03-scan-cancel-without-release",
+    "match": lambda f: "[scan-cancel-without-release]" in f["what"],
+    "text": "scan (inside update_wallet_state) finds an output recorded Spent in the UTXO set, restores it and marks the log entry linked to it cancelled (cancel_tx_log_entry) without releasing that entry's other reserved inputs, which stay Locked under a cancelled entry; reachable when unconfirmed change was re-spent with minimum_confirmations=0",
+}]
+
+
 def run(tier, replay):
     return ledgercheck.run_ledger_check(
         "C03", tier, replay, "c03", [L.oracle_c03],
         "Oracle: a successful reservation only took outputs that were free in the previous snapshot; at most one "
-        "TxSent and one TxReceived entry per (slate, account); every Locked output is held by a live TxSent entry of its account.")
+        "TxSent and one TxReceived entry per (slate, account); every Locked output is held by a live TxSent entry of its account.",
+        known=KNOWN)
